@@ -73,9 +73,10 @@ func NewYAMLAccountManager(accountDir string) (*YAMLAccountManager, error) {
 
 // writeFileAtomic writes data to a temporary file next to name and renames it into place, so that a crash leaves
 // either the old or the new content behind and never a truncated or empty file.  The temporary name does not match the
-// "*.yaml" pattern the accounts are loaded with.
+// "*.yaml" pattern the accounts are loaded with, and it is short and fixed so that it never exceeds the file name
+// limit for a login whose own file name just fits (every caller holds am.mu, so there is only one writer at a time).
 func writeFileAtomic(name string, data []byte) error {
-	tempName := name + ".tmp"
+	tempName := filepath.Join(filepath.Dir(name), ".account-write.tmp")
 
 	if err := os.WriteFile(tempName, data, 0644); err != nil {
 		return err
